@@ -8,11 +8,11 @@ ID = "C16"
 RULE = ("E-INPUT: start instants (days 27-31/1-2 around every month end and every Sunday of 2019-2020 x 2 times of day, 4 early "
         "instants from 1900-1950, a seeded instant; thorough: every day 2019-2022 x 3 times of day) x a 42-rung span ladder "
         "1 ms..250 y (incl. 7,8,9 ms and 28-31 d) x counts (quick {2,3,5,10,17,50}; thorough 2..50) x both orientations, "
-        "through the real TimeScale().domain(..).ticks(m); plus scale/copy histories (domain, [ticks], copy, re-domain the copy, ticks on both) over 4 starts x span pairs of different magnitude, compared with fresh scales; on every sixth start a plain request judged right after a two-argument request ticks(m, step) on another scale of the same span, or after ticks(m) on a scale constructed with its own tick-method table. Oracle: no exception, strictly increasing, in-domain, calendar class "
+        "through the real TimeScale().domain(..).ticks(m); spans that are count x (an entry of the 18-entry tick-interval table) exactly and 1 ms beside; plus scale/copy histories (domain, [ticks], copy, re-domain the copy, ticks on both) over 4 starts x span pairs of different magnitude, compared with fresh scales; on every sixth start a plain request judged right after a two-argument request ticks(m, step) on another scale of the same span, or after ticks(m) on a scale constructed with its own tick-method table. Oracle: no exception, strictly increasing, in-domain, calendar class "
         "from the smallest gap (R-CAL), gap ratio <= 2, count bounds. Non-trivial: >= 2 ticks; separately counted: domains "
         "crossing a 29th-31st, sub-second steps.")
 ASSUMPTIONS = ["TZ=UTC in this check; zone independence is C18", "degenerate (zero-span) domains are outside the property"]
-REQUIRED_COUNTERS = ("copy_histories", "plain_requests_after_step_form", "tick_lists", "subsecond", "class_d", "class_mon", "class_y", "class_h", "class_min", "class_s")
+REQUIRED_COUNTERS = ("copy_histories", "plain_requests_after_step_form", "spans_on_table_multiples", "tick_lists", "subsecond", "class_d", "class_mon", "class_y", "class_h", "class_min", "class_s")
 
 
 def bounds(tier, seed):
@@ -89,6 +89,9 @@ def judge(st, sp, m, rev, acc=None):
             return ("C16:count-ms", "span %r ms < m=%d: expected one tick per millisecond, got %s"
                     % (sp, m, [str(x) for x in tk[:5]]))
     return None
+
+
+TABLE_STEPS_MS = [1e3, 5e3, 15e3, 3e4, 6e4, 3e5, 9e5, 18e5, 36e5, 108e5, 216e5, 432e5, 864e5, 1728e5, 6048e5, 2592e6, 7776e6, 31536e6]
 
 
 def judge_after_step_form(st, sp, m, rev, step, acc=None):
@@ -218,6 +221,25 @@ def run_shard(shard):
                     if bad:
                         acc.violation({"start": st, "span_ms": sp, "m": m, "rev": rev}, bad[0], bad[1],
                                       order=(sp, m, int(rev), cal.ms_of(st)))
+        # spans that are exact multiples of an entry of the tick-interval table (and 1 ms beside them): span / count
+        # meets the table value exactly, where the choice of the interval is a comparison against that value
+        for step in TABLE_STEPS_MS:
+            for m in shard["counts"][:6]:
+                for d in (-1, 0, 1):
+                    sp = m * step + d
+                    if (st + timedelta(milliseconds=sp)).year > 2200:
+                        continue
+                    bad = judge(st, sp, m, bool(d == 0 and m % 2), acc)
+                    acc.evals += 1
+                    acc.trans += 1
+                    acc.counters["spans_on_table_multiples"] += 1
+                    if bad:
+                        acc.violation({"start": st, "span_ms": sp, "m": m, "rev": bool(d == 0 and m % 2)}, bad[0], bad[1],
+                                      order=(sp, m, 0, cal.ms_of(st)))
+        for sp in timegrid.SPANS_MS:
+            en = st + timedelta(milliseconds=sp)
+            if en.year > 2200:
+                continue
             if (si // shard["mod"]) % 6 == 0:  # every sixth start: a two-argument request first, then the plain one
                 for m, step in ((7, 2), (23, 50), (51, "custom-table")):  # a count no plain request in this check uses
                     bad = judge_after_step_form(st, sp, m, False, step, acc)
